@@ -104,7 +104,11 @@ where C: FullDuplexMultiChannel<ItemType = Tok, DerivedItemType = D> + Send + Sy
     let items = Arc::new(cfg.items.clone());
     let ne = items.len();
     let close_calls = Arc::new(AtomicU32::new(0));
-    let multi = Arc::new(Multi::<Tok, C, I, D>::new("rmv-c06"));
+    // (the log channel maps /tmp/<name>.mmap: a name of its own per run, unlinked right away)
+    static SEQ: std::sync::atomic::AtomicU64 = std::sync::atomic::AtomicU64::new(0);
+    let name = format!("rmv-c06-{}-{}", std::process::id(), SEQ.fetch_add(1, SeqCst));
+    let multi = Arc::new(Multi::<Tok, C, I, D>::new(name.clone()));
+    let _ = std::fs::remove_file(format!("/tmp/{name}.mmap"));
     // (optionally) a listener that goes away, unconsumed and uncancelled, before anything happens
     if cfg.drop_one_stream_first { let (s, _id) = multi.channel.create_stream_for_new_events(); drop(s) }
     for l in 0..cfg.listeners {
